@@ -45,7 +45,7 @@ func c01Menu(w *mintops.W) []string {
 	return ops
 }
 
-func c01Specs(quick bool) []*bfs.Spec {
+func c01OwnSpecs(quick bool) []*bfs.Spec {
 	d := 4
 	if !quick {
 		d = 6
@@ -62,7 +62,7 @@ func c01Specs(quick bool) []*bfs.Spec {
 var c01All = specMap(c01Specs(true), c01Specs(false))
 
 func init() {
-	register(&Prop{ID: "C01", Level: "model_checking", QuickBudget: 100 * time.Second, ThoroughBudget: 25 * time.Minute,
+	register(&Prop{ID: "C01", Level: "model_checking", QuickBudget: 300 * time.Second, ThoroughBudget: 25 * time.Minute,
 		Run: func(c *rt.Ctx) {
 			c.Cov["rule"] = "E3: every operation sequence up to the depth bound over the alphabet {swap of p0/p1 (plain, duplicated in one request, changed witness / DLEQ pointer / amount field, both), melt quote, melt x {Succeeded, Pending, Failed->NotFound}, poll x {Succeeded, Failed, Pending}, state check x {Pending, Succeeded, Failed} (the check itself learning the outcome), restart}; a state is distinct by its canonical form (proof states in store and model, quote states, Lightning payment states); in every state each used proof is re-presented and the state-check endpoint compared with the model"
 			runSpecs(c, c01Specs(c.Quick()))
@@ -83,4 +83,9 @@ func init() {
 			return bfs.ReplayFile("C01", c01All, p)
 		},
 	})
+}
+
+// c01Specs: the property's own searches plus the shallow search over the union of all mint-level menus (seqcommon.go).
+func c01Specs(quick bool) []*bfs.Spec {
+	return append(c01OwnSpecs(quick), unionSpecs("C01", probeRespend(2), quick)...)
 }
